@@ -182,7 +182,7 @@ package bitswap
 //@ extern github.com/celestiaorg/celestia-node/share/shwap/p2p/bitswap.unmarshal
 //@   effect $DupFailed := $DupFailed || err != nil
 //@ func fetch
-//@   property C06 C10
+//@   property C06 C10 C02
 //@   noframe
 //@   nopanic
 //@   requires !$DupFailed
